@@ -202,9 +202,12 @@ def _worker(job):
             ex.hooks[FP + '.vAssertScanValue'] = gl.h_assert_scan
             ex.hooks[FP + '.vAssertShift'] = gl.h_assert_shift
             ex.hooks[FP + '.vAssertSetValue'] = gl.h_assert_set
+            ex.hooks[FP + '.vAssertRoundedInt'] = gl.h_assert_roundint
         if job.opts.get('bv_only'):
             ex.solver.use_lia = False
-        if job.opts.get('slowpath'):
+        if job.opts.get('absdec'):
+            ses.use_absdec()
+        elif job.opts.get('slowpath'):
             ses.use_slowpath()
         if job.opts.get('glue'):
             ses.use_glue()
